@@ -34,6 +34,18 @@ impl PartialEq for StringBuf {
         if Arc::ptr_eq(&self.0, &other.0) {
             return true;
         }
-        *self.0.lock().unwrap() == *other.0.lock().unwrap()
+        // Lock the two buffers in the order of their addresses, so that two
+        // threads comparing the same two buffers in opposite order cannot
+        // deadlock.
+        let (this, other) = if Arc::as_ptr(&self.0) < Arc::as_ptr(&other.0) {
+            let this = self.0.lock().unwrap();
+            let other = other.0.lock().unwrap();
+            (this, other)
+        } else {
+            let other = other.0.lock().unwrap();
+            let this = self.0.lock().unwrap();
+            (this, other)
+        };
+        *this == *other
     }
 }
